@@ -26,11 +26,11 @@ PROPS = {
     "C16": {"level": "model_checking", "bounds_text": BT, "K": [K("^Harness_K8_(CLI|ReadConfig|FlagMapYAML)", "^C16/", strmax=4, splitmax=3)]},
     "C14": {"level": "model_checking", "bounds_text": BT, "K": [K("^Harness_K8_ListOrder", "^C14/", strmax=3, splitmax=4), K("^Harness_K14_", "^C14/", strmax=3)], "O": "determinism"},
     "C02": {"level": "model_checking", "bounds_text": BT, "G": G(["schema", "rt", "from"], "^Harness_(Schema|RT|From)_", "^C02/"),
-            "K": [K("^Harness_K1_", "^C02/"), K("^Harness_K2_", "^C02/", strmax=4)]},
+            "K": [K("^Harness_K1_", "^C02[+/]"), K("^Harness_K2_", "^C02/", strmax=4)]},
     "C18": {"level": "model_checking", "bounds_text": BT, "K": [K("^Harness_K2_", "^C18/", strmax=4)], "O": "unsupported"},
     "C17": {"level": "model_checking", "bounds_text": BT, "K": [K("^Harness_K17_", "^C17/", strmax=4)],
             "G": G(["custom", "schema"], "^Harness_(Custom|Schema)_", "^C17/", programs="custom", gosym=["-prune=false"])},
-    "C11": {"level": "translation_validation", "bounds_text": BT, "K": [K("^Harness_K4_", "C11/")],
+    "C11": {"level": "translation_validation", "bounds_text": BT, "K": [K("^Harness_K4_", "C11/"), K("^Harness_K1_Name", "C11/")],
             "V": G([], "^Harness_Diff_", "^C11/")},
     "C12": {"level": "translation_validation", "bounds_text": BT, "V": G([], "^Harness_Diff_", "^C12/"), "K": [K("^Harness_K12_", "^C12/")], "O": "selection"},
     "C13": {"level": "translation_validation", "bounds_text": BT, "V": G([], "^Harness_Diff_", "^C13/"), "K": [K("^Harness_K9_", "^C13/", strmax=5)]},
@@ -39,10 +39,10 @@ PROPS = {
     "C04": {"level": "model_checking", "bounds_text": BT, "G": G(["rt"], "^Harness_RT_", "^C04")},
     "C19": {"level": "model_checking", "bounds_text": BT, "G": G(["rt"], "^Harness_RT_", "C19/")},
     "C20": {"level": "model_checking", "bounds_text": BT, "G": G(["rt"], "^Harness_RT_", "^C20/")},
-    "C07": {"level": "model_checking", "bounds_text": BT, "G": G(["rt", "from"], "^Harness_(RT|From)_", "^C07/", programs="oneof|empty|mini|sorted|docs"),
+    "C07": {"level": "model_checking", "bounds_text": BT, "G": G(["rt", "from"], "^Harness_(RT|From)_", "^C07/", programs="oneof|empty|mini|sorted|docs|deep-n"),
             "K": [K("^Harness_K10_", "^C07/")]},
     "C06": {"level": "model_checking", "bounds_text": BT,
-            "G": G(["corrupt"], "^Harness_Corrupt", "^C06/", programs={"quick": "mini|embed$|scal-S1|time|cast|flags|mapnest", "thorough": "mini|nest$|embed$|oneof$|scal-S1|time|cast|flags|names|multi|mapnest|deep"}, gosym=["-prune=false", "-solver", "z3-new"])},
+            "G": G(["corrupt"], "^Harness_Corrupt", "^C06/", programs={"quick": "mini|embed$|scal-S1|time|cast|flags|mapnest|empty", "thorough": "mini|nest$|embed$|oneof$|scal-S1|time|cast|flags|names|multi|mapnest|deep|empty"}, gosym=["-prune=false", "-solver", "z3-new"])},
     "C05": {"level": "model_checking", "bounds_text": BT, "G": G(["from"], "^Harness_From_", "^C05/")},
     "C08": {"level": "model_checking", "bounds_text": BT, "G": G(["echo"], "^Harness_Echo_", "^C08/")},
     "C09": {"level": "model_checking", "bounds_text": BT, "G": G(["refresh"], "^Harness_Refresh_", "^C09/")},
